@@ -27,6 +27,7 @@ type LinkedListQueue[T any] struct {
 func (p *LinkedListQueue[T]) Push(v T) bool {
 	p.cond.L.Lock()
 	if p.closed {
+		p.cond.L.Unlock()
 		panic("push on closed queue")
 	}
 	p.queue.PushBack(v)
